@@ -155,7 +155,7 @@ func replayNative(P *interp.Program, ws []*interp.Witness, work string) (map[int
 			wg.Add(1)
 			go func(k int) {
 				defer wg.Done()
-				run := exec.Command(bin, "-test.run", "^TestVerifReplay$", "-test.v", "-test.timeout", "20m")
+				run := exec.Command(bin, "-test.run", "^TestVerifReplay$", "-test.v", "-test.timeout", "8m")
 				run.Dir = pkgDir
 				run.Env = append(os.Environ(), "VERIF_WITNESSES="+wpath, fmt.Sprintf("VERIF_SHARD=%d/%d", k, shards))
 				outs[k], errs[k] = run.CombinedOutput()
@@ -177,7 +177,7 @@ func replayNative(P *interp.Program, ws []*interp.Witness, work string) (map[int
 				if w.Pkg != pkg || w.Event == "alloc" || res[idx] != nil {
 					continue
 				}
-				sh := fmt.Sprintf("ulimit -v 6291456; exec %s -test.run '^TestVerifReplay$' -test.v -test.timeout 5m", bin)
+				sh := fmt.Sprintf("ulimit -v 6291456; exec %s -test.run '^TestVerifReplay$' -test.v -test.timeout 2m", bin)
 				one := exec.Command("bash", "-c", sh)
 				one.Dir = pkgDir
 				one.Env = append(os.Environ(), "VERIF_WITNESSES="+wpath, fmt.Sprintf("VERIF_ONLY=%d", idx), "GOMEMLIMIT=4GiB")
@@ -201,7 +201,7 @@ func replayNative(P *interp.Program, ws []*interp.Witness, work string) (map[int
 			if w.Pkg != pkg || w.Event != "alloc" {
 				continue
 			}
-			sh := fmt.Sprintf("ulimit -v 6291456; exec %s -test.run '^TestVerifReplay$' -test.v -test.timeout 5m", bin)
+			sh := fmt.Sprintf("ulimit -v 6291456; exec %s -test.run '^TestVerifReplay$' -test.v -test.timeout 2m", bin)
 			run := exec.Command("bash", "-c", sh)
 			run.Dir = pkgDir
 			run.Env = append(os.Environ(), "VERIF_WITNESSES="+wpath, fmt.Sprintf("VERIF_ONLY=%d", idx), "GOMEMLIMIT=4GiB")
